@@ -13,7 +13,7 @@ An expression tree is a nested tuple:
 """
 from . import mir
 
-MAX_DEPTH = 40
+MAX_DEPTH = 150
 OPASSIGN = {"add_assign": "add", "sub_assign": "sub", "mul_assign": "mul", "div_assign": "div"}
 
 
@@ -128,10 +128,23 @@ class Prov:
         self._stack = set()
 
     # ---- places
+    def _index_const(self, l):
+        ds = self.d.whole.get(l, [])
+        if len(ds) == 1 and ds[0][2][0] == "assign" and ds[0][2][1]["k"] == "use":
+            v = mir.op_const(ds[0][2][1]["op"])
+            if isinstance(v, int) and not isinstance(v, bool):
+                return v
+        return None
+
     def place_tree(self, p, depth=0):
         """Tree for the value stored at place p."""
         l = p["l"]
         names = _proj_names(p["proj"])
+        for i, e in enumerate(p["proj"]):
+            if e[0] == "index":
+                v = self._index_const(e[1])
+                if v is not None:
+                    names[i] = "[%d]" % v
         base = self.local_tree(l, depth + 1)
         return self._project(base, names)
 
@@ -329,7 +342,12 @@ class Prov:
         args = tuple(self.op_tree(a, depth + 1) for a in t["args"])
         if c is None:
             return ("call", "<indirect>", "<indirect>", args)
-        return ("call", c.get("resolved") or c["key"], c["name"], args)
+        key = c.get("resolved") or c["key"]
+        if not c.get("resolved") and c.get("trait") and "self_ty" in c:
+            st = self.body.ty(c["self_ty"])
+            if st["k"] == "adt":
+                key = "%s::<%s as %s>::%s" % (st["path"].rsplit("::", 1)[0], st["name"], c["trait"], c["name"])
+        return ("call", key, c["name"], args)
 
 
 def strip(t):
@@ -451,12 +469,12 @@ def tree_str(t, depth=0):
     return "?%s" % (t[1] if len(t) > 1 else "")
 
 
-def canon(t, body, depth=0):
+def canon(t, body, depth=0, keep_index=False):
     """Canonical, line-free rendering of a tree for comparison with spec tables: paths are rendered with the
     parameter NAME as root and only named fields (tuple indices, derefs and downcasts dropped); refs, derefs and
     `from`/`into` conversions are kept as calls; phi alternatives are sorted."""
     k = t[0]
-    if depth > 14:
+    if depth > (30 if keep_index else 14):
         return "…"
     if k == "path":
         r = t[1]
@@ -466,12 +484,17 @@ def canon(t, body, depth=0):
             root = body.local_name(r[1]) or ("_%d" % r[1])
         else:
             root = r[0]
-        f = [x for x in t[2] if x != "*" and not x.startswith("as ") and not x.startswith("[") and not x.isdigit()]
-        return ".".join([root] + f)
+        f = [x for x in t[2] if x != "*" and not x.startswith("as ") and (keep_index or not x.startswith("[")) and not x.isdigit()]
+        out = root
+        for x in f:
+            out += x if x.startswith("[") else "." + x
+        return out
     if k == "const":
         return repr(t[1])
     if k in ("constdef", "fnptr"):
         return t[1].split("::")[-1]
+    if keep_index:
+        return _canon_ix(t, body, depth)
     if k == "call":
         return "%s(%s)" % (t[2], ", ".join(canon(a, body, depth + 1) for a in t[3]))
     if k == "bin":
@@ -497,6 +520,36 @@ def canon(t, body, depth=0):
         return "%s.%s" % (canon(t[1], body, depth + 1), t[2])
     if k == "phi":
         return "phi(%s)" % " | ".join(sorted(set(canon(s, body, depth + 1) for s in t[1])))
+    return "?"
+
+
+def _canon_ix(t, body, depth):
+    """canon() with constant indices kept (codec layouts)"""
+    k = t[0]
+    c = lambda x: canon(x, body, depth + 1, True)
+    if k == "call":
+        return "%s(%s)" % (t[2], ", ".join(c(a) for a in t[3]))
+    if k == "bin":
+        return "%s(%s, %s)" % (t[1].lower(), c(t[2]), c(t[3]))
+    if k == "un":
+        return "%s(%s)" % (t[1].lower(), c(t[2]))
+    if k == "cast":
+        return "cast<%s>(%s)" % (t[3].split("::")[-1], c(t[2]))
+    if k == "agg":
+        name = t[1] if not t[1].startswith("closure:") else "closure"
+        if name in ("Option", "Result") or (len(t[3]) == 1 and t[3][0][0] == "0"):
+            return "%s(%s)" % (t[2] or name, ", ".join(c(s) for _, s in t[3]))
+        return "%s%s{%s}" % (name, ("::" + t[2]) if t[2] and t[2] != name else "", ", ".join("%s: %s" % (f, c(s)) for f, s in t[3]))
+    if k in ("ref", "deref", "promoted"):
+        return c(t[1])
+    if k == "discr":
+        return "discr(%s)" % c(t[1])
+    if k == "field":
+        if t[2].isdigit() or t[2].startswith("as "):
+            return c(t[1])
+        return "%s.%s" % (c(t[1]), t[2])
+    if k == "phi":
+        return "phi(%s)" % " | ".join(sorted(set(c(s) for s in t[1])))
     return "?"
 
 
